@@ -15,6 +15,7 @@ func read(f string) *model.Context {
 	conf := model.NewDefaultConfiguration()
 	conf.Cmd = model.MERGECREATE
 	conf.ValidationMode = model.ValidationRelaxed
+	conf.CreateBookmarks = os.Getenv("BM") != ""
 	fh, _ := os.Open(f)
 	ctx, err := api.ReadAndValidate(fh, conf)
 	if err != nil {
@@ -25,15 +26,25 @@ func read(f string) *model.Context {
 
 func main() {
 	api.DisableConfigDir()
-	for try := 0; try < 10; try++ {
+	for try := 0; try < 1; try++ {
 		dst, src := read(os.Args[1]), read(os.Args[2])
+		e15, _ := dst.FindTableEntryLight(15)
+		fmt.Printf("dest after read: Size=%d len(Table)=%d entry15=%T free=%v | src Size=%d len=%d\n", *dst.Size, len(dst.Table), e15.Object, e15.Free, *src.Size, len(src.Table))
 		srcKinds := map[string]int{}
 		for _, e := range src.Table {
 			if e != nil && !e.Free {
 				srcKinds[fmt.Sprintf("%T", e.Object)]++
 			}
 		}
-		if err := pdfcpu.MergeXRefTables("x", src, dst, false, false); err != nil {
+		if os.Getenv("BM") != "" {
+			dst.Conf.CreateBookmarks = true
+			if err := pdfcpu.EnsureOutlines(dst, "d0.pdf", true); err != nil {
+				fmt.Println("ensure outlines:", err)
+			}
+			seen0 := map[int]bool{}
+			_ = seen0
+		}
+		if err := pdfcpu.MergeXRefTables("x", src, dst, false, os.Getenv("DIV") != ""); err != nil {
 			fmt.Println("merge:", err)
 			continue
 		}
@@ -95,6 +106,38 @@ func main() {
 			if !walk(*dst.Root, "Root") {
 				fmt.Println("try", try, ": clean after optimize")
 			}
+		}
+		e15, _ = dst.FindTableEntryLight(15)
+		fmt.Printf("dest after merge: Size=%d len(Table)=%d entry15=%T free=%v\n", *dst.Size, len(dst.Table), e15.Object, e15.Free)
+		var refs func(o types.Object, n int, path string)
+		refs = func(o types.Object, n int, path string) {
+			switch v := o.(type) {
+			case types.IndirectRef:
+				if v.ObjectNumber.Value() == 15 {
+					fmt.Printf("  obj %d %s -> 15\n", n, path)
+				}
+			case types.Dict:
+				for k, x := range v {
+					refs(x, n, path+"/"+k)
+				}
+			case types.StreamDict:
+				refs(v.Dict, n, path)
+			case types.Array:
+				for i, x := range v {
+					refs(x, n, fmt.Sprintf("%s[%d]", path, i))
+				}
+			}
+		}
+		for n, e := range dst.Table {
+			if e != nil && !e.Free {
+				refs(e.Object, n, "")
+			}
+		}
+		for name, tree := range dst.Names {
+			_ = tree.Process(dst.XRefTable, func(x *model.XRefTable, k string, v *types.Object) error {
+				refs(*v, -1, "nametree "+name+" key "+k+fmt.Sprintf(" (%T)", *v))
+				return nil
+			})
 		}
 		var buf bytes.Buffer
 		fmt.Println("try", try, "write:", api.WriteContext(dst, &buf))
